@@ -1905,7 +1905,7 @@ const OPS: &[(&str, Op, usize)] = &[
 ];
 
 pub fn op_names() -> Vec<&'static str> {
-    OPS.iter().map(|o| o.0).collect()
+    OPS.iter().map(|o| o.0).chain(["compose"]).collect()
 }
 
 /// Applies one random operator; returns its name if it changed the candidate into another
@@ -1940,6 +1940,197 @@ pub fn mutate_once(c: &mut Cand, rng: &mut Rng, pool: &Pool) -> Option<&'static 
     None
 }
 
+
+// ---------------------------------------------------------------- composition from scratch
+
+fn helper_family(h: &str) -> &'static str {
+    let name: String = h
+        .trim_start_matches("#[")
+        .chars()
+        .take_while(|c| c.is_alphanumeric() || *c == '_')
+        .collect();
+    match name.as_str() {
+        "ord" | "partial_ord" | "eq" | "partial_eq" | "hash" => "cmp",
+        "debug" => "debug",
+        "default" => "default",
+        "derive_ex" => "derive_ex",
+        _ => "other",
+    }
+}
+
+/// An item assembled from the dictionaries, one independent choice per dimension (kind, generics,
+/// where clause, container / variant / field helpers biased to one family, field types, trait
+/// list biased to the same family, entry point). Mutation from the corpus stays near the corpus;
+/// this covers conjunctions of dictionary values that no corpus item is close to.
+pub fn compose(rng: &mut Rng) -> Option<Cand> {
+    let focus = *rng.pick(&["cmp", "cmp", "debug", "default", "derive_ex", "mixed"]);
+    // "sane" compositions avoid the dictionary's deliberately malformed entries and misplaced
+    // helpers, so that most of them expand to impls instead of stopping at the first error
+    let sane = rng.chance(6, 10);
+    let malformed = |h: &str| -> bool {
+        !h.contains('(')
+            || h.contains("()]")
+            || h.contains(" = 1]")
+            || h.contains("(1, 2)")
+            || h.contains("ignore, reverse")
+            || h.contains("ignore, transparent")
+            || h.contains("hash(reverse")
+            || h.contains("eq(reverse")
+            || h.contains("::x")
+    };
+    let in_family: Vec<&str> = HELPER_ATTRS
+        .iter()
+        .copied()
+        .filter(|h| helper_family(h) == focus && !(sane && malformed(h)))
+        .collect();
+    let container_ok: Vec<&str> = HELPER_ATTRS
+        .iter()
+        .copied()
+        .filter(|h| {
+            let f = helper_family(h);
+            (f == focus || focus == "mixed") && f != "other" && !malformed(h)
+                && (h.contains("bound(") && !h.contains("key") && !h.contains("by =") || h.contains("transparent"))
+        })
+        .collect();
+    let pick_helper = |rng: &mut Rng, container: bool| -> String {
+        if sane {
+            let pool: &Vec<&str> = if container { &container_ok } else { &in_family };
+            if pool.is_empty() {
+                return String::new();
+            }
+            return rng.pick(pool).to_string();
+        }
+        if !in_family.is_empty() && rng.chance(7, 10) {
+            rng.pick(&in_family).to_string()
+        } else {
+            rng.pick_str(HELPER_ATTRS).to_string()
+        }
+    };
+    let helpers = |rng: &mut Rng, w: &[usize], container: bool| -> String {
+        let n = rng.weighted(w);
+        let n = if sane { n.min(1) } else { n };
+        (0..n).map(|_| pick_helper(rng, container)).collect::<Vec<_>>().join(" ")
+    };
+    let ty = |rng: &mut Rng| -> String {
+        if rng.chance(1, 2) {
+            rng.pick_str(&TYPES[..10]).to_string()
+        } else {
+            rng.pick_str(TYPES).to_string()
+        }
+    };
+    let fields = |rng: &mut Rng, allow_semicolon: bool| -> String {
+        let kind = rng.weighted(&[1, 5, 5]);
+        let n = rng.weighted(&[2, 8, 6, 4]);
+        let mut fs = Vec::new();
+        for i in 0..n {
+            let h = helpers(rng, &[5, 4, 1], false);
+            let t = ty(rng);
+            fs.push(if kind == 2 { format!("{h} f{i}: {t}") } else { format!("{h} {t}") });
+        }
+        match kind {
+            0 => String::new(),
+            1 => format!("({}){}", fs.join(", "), if allow_semicolon { "" } else { "" }),
+            _ => format!("{{ {} }}", fs.join(", ")),
+        }
+    };
+    let n_gen = rng.weighted(&[3, 4, 3, 1]);
+    let gens: Vec<&str> = (0..n_gen).map(|_| rng.pick_str(GENERIC_PARAMS)).collect();
+    let generics = if gens.is_empty() {
+        if rng.chance(1, 10) { "<>".to_string() } else { String::new() }
+    } else {
+        format!("<{}>", gens.join(", "))
+    };
+    let where_clause = if rng.chance(1, 4) {
+        let n = rng.weighted(&[1, 4, 2]);
+        let ps: Vec<&str> = (0..n).map(|_| rng.pick_str(WHERE_PREDS)).collect();
+        format!("where {}{}", ps.join(", "), if n > 0 && rng.chance(1, 3) { "," } else { "" })
+    } else {
+        String::new()
+    };
+    let container = helpers(rng, &[5, 4, 1], true);
+    let is_enum = rng.chance(1, 2);
+    let body = if is_enum {
+        let n = rng.weighted(&[1, 4, 6, 3]);
+        let mut vs = Vec::new();
+        let the_default = rng.below(n.max(1));
+        for i in 0..n {
+            let mut h = helpers(rng, &[6, 3, 1], true);
+            if if sane { i == the_default } else { rng.chance(1, 4) } {
+                h.push_str(" #[default]");
+            }
+            let f = fields(rng, false);
+            let disc = if rng.chance(1, 25) { format!(" = {i}") } else { String::new() };
+            vs.push(format!("{h} V{i}{f}{disc}"));
+        }
+        format!("enum X{generics} {where_clause} {{ {} }}", vs.join(", "))
+    } else {
+        let f = fields(rng, true);
+        if f.starts_with('{') {
+            format!("struct X{generics} {where_clause} {f}")
+        } else {
+            format!("struct X{generics}{f} {where_clause};")
+        }
+    };
+    let family_traits: &[&str] = match focus {
+        "cmp" => &["Ord", "PartialOrd", "Eq", "PartialEq", "Hash"],
+        "debug" => &["Debug"],
+        "default" => &["Default"],
+        "derive_ex" => &["Clone", "Default", "Debug", "Copy"],
+        _ => TRAITS,
+    };
+    let list = if !sane && rng.chance(1, 3) {
+        trait_list(rng)
+    } else {
+        let mut parts: Vec<String> = Vec::new();
+        for t in family_traits {
+            if family_traits.len() == 1 || rng.chance(2, 3) {
+                let args = match rng.weighted(&[14, 2, 1]) {
+                    0 => String::new(),
+                    1 => format!("({})", bound_list(rng)),
+                    _ => "(dump)".to_string(),
+                };
+                parts.push(format!("{t}{args}"));
+            }
+        }
+        if parts.is_empty() {
+            parts.push(family_traits[0].to_string());
+        }
+        let extra = rng.weighted(&[5, 3, 1]);
+        for _ in 0..extra {
+            let at = rng.below(parts.len() + 1);
+            let t = if sane && is_enum {
+                rng.pick_str(&["Clone", "Copy", "Debug", "Default", "Hash", "PartialEq", "Eq", "PartialOrd", "Ord"])
+            } else if sane {
+                rng.pick_str(&TRAITS[..31])
+            } else {
+                rng.pick_str(TRAITS)
+            };
+            if !parts.iter().any(|p| p == t || p.starts_with(&format!("{t}("))) {
+                parts.insert(at, t.to_string());
+            }
+        }
+        if rng.chance(1, 8) {
+            parts.push(bound_list(rng));
+        }
+        if rng.chance(1, 30) {
+            parts.push("dump".into());
+        }
+        parts.join(", ")
+    };
+    let derive = rng.chance(3, 10);
+    let r = if derive {
+        Request { mode: Mode::Derive, attr: String::new(), item: format!("#[derive_ex({list})] {container} {body}") }
+    } else {
+        Request { mode: Mode::Attr, attr: list, item: format!("{container} {body}") }
+    };
+    let (a, i) = (lex(&r.attr)?, lex(&r.item)?);
+    let r = Request::new(r.mode, &a, &i);
+    if !is_valid_request(&r) {
+        return None;
+    }
+    Cand::from_request(&r)
+}
+
 const LABEL_MUTANT: u64 = 0x4d55_5441_4e54;
 
 /// The `index`-th generated input of the run with root seed `root`: a corpus or directed item
@@ -1948,14 +2139,21 @@ pub fn gen_input(root: u64, index: u64, pool: &Pool) -> (Request, Vec<&'static s
     let mut rng = Rng::new(derive_seed(root, LABEL_MUTANT, index));
     let mut applied = Vec::new();
     for _attempt in 0..8 {
-        let Some(mut c) = pool.any(&mut rng) else {
+        applied.clear();
+        let composed = rng.chance(3, 10);
+        let Some(mut c) = (if composed { compose(&mut rng) } else { pool.any(&mut rng) }) else {
             continue;
         };
         let steps = match rng.weighted(&[30, 25, 18, 12, 8, 4, 3]) {
             6 => rng.range(7, 14),
             k => k + 1,
         };
-        applied.clear();
+        let steps = if composed {
+            applied.push("compose");
+            steps.saturating_sub(1).min(3)
+        } else {
+            steps
+        };
         for _ in 0..steps {
             if let Some(name) = mutate_once(&mut c, &mut rng, pool) {
                 applied.push(name);
